@@ -26,8 +26,9 @@ pub fn convert(
     rules.push(Box::new(ExistingVar::default()));
     rules.push(Box::new(ExistingConst::new_local()));
     if extra.element != ExprContext::Default {
-        rules.push(Box::new(AssignToFunction::default()));
-    } else {
+        rules.push(Box::new(AssignToFunction::new(extra.element)));
+    }
+    if extra.element == ExprContext::Default || extra.element == ExprContext::Argument {
         rules.push(Box::new(VarAsBuiltInFunctionCall::default()));
         rules.push(Box::new(VarAsUserDefinedFunctionCall::default()));
     }
@@ -186,14 +187,27 @@ fn const_variant_to_expression(value: Variant) -> Expression {
     }
 }
 
-#[derive(Default)]
 pub struct AssignToFunction {
+    expr_context: ExprContext,
     function_qualifier: Option<TypeQualifier>,
+}
+
+impl AssignToFunction {
+    pub fn new(expr_context: ExprContext) -> Self {
+        Self {
+            expr_context,
+            function_qualifier: None,
+        }
+    }
 }
 
 impl VarResolve for AssignToFunction {
     fn can_handle(&mut self, ctx: &LinterContext, name: &Name) -> bool {
         let bare_name = name.as_bare_name();
+        if self.expr_context == ExprContext::Argument && !ctx.names.is_in_function(bare_name) {
+            // the name of another function as an argument is a call of that function
+            return false;
+        }
         match ctx.function_qualifier(bare_name) {
             Some(function_qualifier) => {
                 self.function_qualifier = Some(function_qualifier);
